@@ -87,3 +87,31 @@ Theorem C03_fragment_document_configs :
           [cfg_html; cfg_html_nohtml; cfg_latex; cfg_mathjax; cfg_default] = true.
 Proof. exact document_configs. Qed.
 Print Assumptions C03_fragment_document_configs.
+
+(* ... down to the HTML, which is what the property observes: the HTML renderer model writes, for the document
+   parsed from the spelled text, exactly html_f - the HTML written directly from the tree (Proofs/FragmentHtml.v:
+   CommonMark's layout; tight items without <p>; text escaped) - for lines handed over as a list and for the
+   text handed over as ONE string (mistletoe.markdown(text)), provided no line holds another of str.splitlines'
+   break characters *)
+From Mistletoe Require Import Proofs.FragmentHtml.
+Theorem C03_fragment_html : forall cfg o t,
+  fragment_config (cfg_block cfg) = true -> forallb kind_quiet (removelast (cfg_span cfg)) = true -> wf_b t = true ->
+  render_html o (fst (fst (parse_lines cfg (text_of (spell t))))) = html_f o false t ++ [10].
+Proof. exact fragment_html. Qed.
+Print Assumptions C03_fragment_html.
+
+Theorem C03_fragment_markdown_html : forall o process_html t, wf_b t = true -> one_string_ok t = true ->
+  markdown_html o process_html (concat (text_of (spell t))) = html_f o false t ++ [10].
+Proof. exact fragment_markdown_html. Qed.
+Print Assumptions C03_fragment_markdown_html.
+
+Theorem C03_fragment_html_instance :
+  let fence := FFence 96 3 [SLine 2 120 $" < 1"; SBlank; SLine 0 35 $" not a heading"] in
+  let t := FQuote [FItem (MOrdered $"12" 41) 1 [FPara 101 []; fence]; FPara 120 []; FItem (MBullet 45) 2 [FPara 97 $" > b"]] in
+  wf_b t = true /\ one_string_ok t = true /\
+  html_f (mkHopts false false) false t =
+    $"<blockquote>" ++ [10] ++ $"<ol start=""12"">" ++ [10] ++ $"<li>" ++ [10] ++ $"<p>e</p>" ++ [10] ++
+    $"<pre><code>  x &lt; 1" ++ [10; 10] ++ $"# not a heading" ++ [10] ++ $"</code></pre>" ++ [10] ++ $"</li>" ++ [10] ++ $"</ol>" ++ [10] ++ $"<p>x</p>" ++ [10] ++
+    $"<ul>" ++ [10] ++ $"<li>a &gt; b</li>" ++ [10] ++ $"</ul>" ++ [10] ++ $"</blockquote>".
+Proof. exact html_instance. Qed.
+Print Assumptions C03_fragment_html_instance.
